@@ -331,9 +331,13 @@ def circuit_netlist(desc, w):
     return {"ref": "0", "branches": br}
 
 
+SWEEPS = [SWEEP, list(reversed(SWEEP)), [2, 0, 1000, 0.5, 2, 10, 1]]   # ascending, descending, unordered with a repeated point
+
+
 def run_circuit(i, tier, res):
     desc = circuit_pool(tier)[i]
-    judge_circuit(desc, SWEEP, res)
+    for sw in SWEEPS:
+        judge_circuit(desc, sw, res)
 
 
 def judge_circuit(desc, sweep, res):
@@ -357,14 +361,18 @@ def judge_circuit(desc, sweep, res):
         zsc = max([abs(complex(e)) for e in exact] + [1.0])
         try:
             z = cimp.open_circuit_impedance(circuit, a, b_, w=np.array(sweep, dtype=float))
+            if len(z) != len(sweep):
+                add_violation(res, "sweep_jwL_1_jwC", dict(case, port=[a, b_]), len(sweep), len(z), "sweep returns %d values for %d frequencies" % (len(z), len(sweep)))
+                continue
             for w, zz, e in zip(sweep, z, exact):
                 if not abs(complex(zz) - complex(e)) <= SWEEP_RTOL * zsc:
                     add_violation(res, "sweep_jwL_1_jwC", dict(case, port=[a, b_]), complex(e), complex(zz), "Z(%s,%s) at w=%s wrong" % (a, b_, w))
                 res["fps"].add(fp(complex(zz)))
             bump(res["hits"], "dc_resistance")
             r0 = cimp.open_circuit_dc_resistance(circuit, a, b_)
-            if abs(r0 - complex(exact[0]).real) > SWEEP_RTOL * zsc:
-                add_violation(res, "dc_resistance", dict(case, port=[a, b_]), complex(exact[0]).real, r0, "dc resistance wrong")
+            e0 = complex(exact[list(sweep).index(0)]).real
+            if abs(r0 - e0) > SWEEP_RTOL * zsc:
+                add_violation(res, "dc_resistance", dict(case, port=[a, b_]), e0, r0, "dc resistance wrong")
         except Exception as e:
             add_violation(res, "sweep_jwL_1_jwC", dict(case, port=[a, b_]), [complex(x) for x in exact], "%s: %s" % (type(e).__name__, e),
                           "impedance sweep raised", kind="exception:" + type(e).__name__)
@@ -386,12 +394,16 @@ def judge_circuit(desc, sweep, res):
         zsc = max([abs(complex(e)) for e in exact] + [1.0])
         try:
             z = cimp.element_impedance(circuit, comp[1], w=np.array(sweep, dtype=float))
+            if len(z) != len(sweep):
+                add_violation(res, "sweep_element_impedance", dict(case, element=comp[1]), len(sweep), len(z), "sweep returns %d values for %d frequencies" % (len(z), len(sweep)))
+                continue
             for w, zz, e in zip(sweep, z, exact):
                 if not abs(complex(zz) - complex(e)) <= SWEEP_RTOL * zsc:
                     add_violation(res, "sweep_element_impedance", dict(case, element=comp[1]), complex(e), complex(zz), "impedance seen by %s at w=%s wrong" % (comp[1], w))
             r0 = cimp.element_dc_resistance(circuit, comp[1])
-            if abs(r0 - complex(exact[0]).real) > SWEEP_RTOL * zsc:
-                add_violation(res, "dc_resistance", dict(case, element=comp[1]), complex(exact[0]).real, r0, "element dc resistance wrong")
+            e0 = complex(exact[list(sweep).index(0)]).real
+            if abs(r0 - e0) > SWEEP_RTOL * zsc:
+                add_violation(res, "dc_resistance", dict(case, element=comp[1]), e0, r0, "element dc resistance wrong")
         except Exception as e:
             add_violation(res, "sweep_element_impedance", dict(case, element=comp[1]), [complex(x) for x in exact], "%s: %s" % (type(e).__name__, e),
                           "element impedance sweep raised", kind="exception:" + type(e).__name__)
